@@ -26,46 +26,65 @@ def shifts_and_products(F, S):
     rb = F.fn(M + "::ReadMapBeginning", nparams=1)
     eng = Engine(F, S)
     eng.analyze(rb, frozenset())
-    hdr = None
-    for nd in rb.nodes:
-        if nd["k"] == "DeclStmt":
-            for d in nd.get("decls", []):
-                if d.get("rec") == MH:
-                    hdr = ("var", d["n"], d["d"])
-    if hdr is None:
+    # ReadMapBeginning may have been split into helpers that are handed the header (a check helper, a construction helper):
+    # the sinks are looked for in all of them, each judged with what is known where it is reached from ReadMapBeginning
+    from ..through import closure
+    from .c05 import alias_defs, resolve
+    parts = []
+    for rf in closure(F, rb, depth=2):
+        hv = None
+        for nd in rf.nodes:
+            if nd["k"] == "DeclStmt":
+                for d in nd.get("decls", []):
+                    if d.get("rec") == MH:
+                        hv = ("var", d["n"], d["d"])
+        for p in rf.params:
+            if p.get("rec") == MH and hv is None:
+                hv = ("var", p["n"], p["d"])
+        if hv is not None:
+            parts.append((rf, hv))
+    if not parts or parts[0][0].key != rb.key:
         raise AnalysisBroken("ReadMapBeginning: MapHeader local not found")
-    lg = ("mem", hdr, "lgWidthInTiles")
+    hdr = parts[0][1]
     n = 0
-    # every place the header's lgWidthInTiles is shifted by: calls of the shifting accessors on the header, and shifts
-    # written out in this function
-    sinks = []
-    for nd in rb.nodes:
-        if nd["k"] == "CXXMemberCallExpr" and nd.get("fname") in ("WidthInTiles", "TileCount") and rb.term(nd["obj"]) == hdr:
-            sinks.append((nd, nd["fname"]))
-        elif nd["k"] == "BinaryOperator" and nd.get("op") == "<<" and rb.term(rb.kids(nd["id"])[1]) == lg:
-            sinks.append((nd, "shift"))
-    for nd, what in sinks:
-        n += 1
-        site = final_site_facts(eng, rb, nd["id"]) or set()
-        inst = "%s::ReadMapBeginning#shift:%s" % (M, what if what != "shift" else fmt_term(rb.term(nd["id"])))
-        req = "lgWidthInTiles < 32 holds where it is shifted by (%s)" % what
-        if prove_le(site, lg, ("const", 32), strict=True):
-            out.append(ok("R-TAINT", inst, rb.loc(nd["id"]), rb.qn, req, "refusal of lgWidthInTiles >= 32 dominates"))
-        else:
-            out.append(bad("R-TAINT", inst, rb.loc(nd["id"]), rb.qn, req, "facts: " + facts_txt(site)))
+    rzs = []
+    for rf, hv in parts:
+        lg = ("mem", hv, "lgWidthInTiles")
+        # every place the header's lgWidthInTiles is shifted by: calls of the shifting accessors on the header, and shifts
+        # written out in this function
+        sinks = []
+        for nd in rf.nodes:
+            if nd["k"] == "CXXMemberCallExpr" and nd.get("fname") in ("WidthInTiles", "TileCount") and rf.term(nd["obj"]) == hv:
+                sinks.append((nd, nd["fname"]))
+            elif nd["k"] == "BinaryOperator" and nd.get("op") == "<<" and rf.term(rf.kids(nd["id"])[1]) == lg:
+                sinks.append((nd, "shift"))
+        for nd, what in sinks:
+            site = final_site_facts(eng, rf, nd["id"])
+            if site is None:
+                continue
+            n += 1
+            inst = "%s::ReadMapBeginning#shift:%s" % (M, what if what != "shift" else fmt_term(rf.term(nd["id"])))
+            req = "lgWidthInTiles < 32 holds where it is shifted by (%s)" % what
+            if prove_le(site, lg, ("const", 32), strict=True):
+                out.append(ok("R-TAINT", inst, rf.loc(nd["id"]), rf.qn, req, "refusal of lgWidthInTiles >= 32 dominates"))
+            else:
+                out.append(bad("R-TAINT", inst, rf.loc(nd["id"]), rf.qn, req, "facts: " + facts_txt(site)))
+        for nd in rf.nodes:
+            if nd["k"] == "CXXMemberCallExpr" and nd.get("fname") == "resize" and "obj" in nd and rf.term(nd["obj"])[0] == "mem" and rf.term(nd["obj"])[2] == "tiles":
+                rzs.append((rf, hv, nd))
     # the tile array is sized by height << lgWidth; whatever form the argument takes, the 64-bit product must have been refused
     # above UINT32_MAX first
-    from .c05 import alias_defs, resolve
-    prod = ("op", "<<", ("mem", hdr, "heightInTiles"), lg)
-    rz = [nd for nd in rb.nodes if nd["k"] == "CXXMemberCallExpr" and nd.get("fname") == "resize" and "obj" in nd
-          and rb.term(nd["obj"])[0] == "mem" and rb.term(nd["obj"])[2] == "tiles"]
-    if len(rz) != 1:
+    if len(rzs) != 1:
         raise AnalysisBroken("ReadMapBeginning: expected one resize of the tile array")
-    site = final_site_facts(eng, rb, rz[0]["id"]) or set()
-    arg = resolve(rb.term(rz[0]["args"][0]), {k: v for k, v in alias_defs(rb).items() if k != hdr})
+    zf, zh, z = rzs[0]
+    rz = [z]
+    lg = ("mem", zh, "lgWidthInTiles")
+    prod = ("op", "<<", ("mem", zh, "heightInTiles"), lg)
+    site = final_site_facts(eng, zf, z["id"]) or set()
+    arg = resolve(zf.term(z["args"][0]), {k: v for k, v in alias_defs(zf).items() if k != zh})
     good = arg == prod and prove_le(site, prod, ("const", 0xffffffff))
     wide = False
-    scope = [rb] + [c for x in rb.nodes if x["k"] in CALLS for c in F.callees(x) if c.cfg and not c.cls and "/Map/" in c.file]
+    scope = [f0 for f0, _ in parts] + [c for f0, _ in parts for x in f0.nodes if x["k"] in CALLS for c in F.callees(x) if c.cfg and not c.cls and "/Map/" in c.file]
     for f2 in scope:
         for x in f2.nodes:
             if x["k"] == "BinaryOperator" and x.get("op") == "<<" and x.get("iw") == 64 and "heightInTiles" in repr(f2.term(x["id"])):
@@ -73,19 +92,21 @@ def shifts_and_products(F, S):
     inst = "%s::ReadMapBeginning#tile-count-fits" % M
     req = "height << lgWidth, formed in 64 bits, is refused above UINT32_MAX before it sizes the tile array"
     if good and wide:
-        out.append(ok("R-TAINT", inst, rb.loc(rz[0]["id"]), rb.qn, req, "64-bit guard dominates the resize"))
+        out.append(ok("R-TAINT", inst, zf.loc(z["id"]), zf.qn, req, "64-bit guard dominates the resize"))
     else:
-        out.append(bad("R-TAINT", inst, rb.loc(rz[0]["id"]), rb.qn, req, "resize argument %s; guard %s, formed in 64 bits: %s" % (fmt_term(arg), "present" if good else "missing", wide)))
+        out.append(bad("R-TAINT", inst, zf.loc(z["id"]), zf.qn, req, "resize argument %s; guard %s, formed in 64 bits: %s" % (fmt_term(arg), "present" if good else "missing", wide)))
     if n < 2:
         raise AnalysisBroken("ReadMapBeginning: expected at least two shifts by lgWidthInTiles (width, tile count)")
     # the shifting helpers themselves are only called from guarded sites
     from ..invariants import callers_map
     cm = callers_map(F)
+    from ..through import private_closure
+    guarded_code = private_closure(F, rb)      # ReadMapBeginning and the private helpers only it calls (sinks judged above)
     for nm in ("WidthInTiles", "TileCount"):
         fn = F.fn(MH + "::" + nm, nparams=0)
         callers = sorted(cm.get(fn.key, set()))
         inst = "%s::%s#callers" % (MH, nm)
-        if all(c == rb.key for c in callers):
+        if all(c in guarded_code for c in callers):
             out.append(ok("R-WHOCALLS", inst, fn.loc(fn.body), fn.qn, "the unguarded shift helper is called only from the guarded reader",
                           "callers: ReadMapBeginning" if callers else "no callers in the library", nontrivial=bool(callers)))
         else:
